@@ -481,7 +481,7 @@ class Engine(object):
                           'attempt #%d of %s includes %r already %s (attempt recipients %r)'
                           % (m.nattempts, tag, settled, [m.state[r] for r in settled], rcpts))
             missing = [r for r in m.outstanding() if r not in rcpts]
-            if missing and not settled:
+            if missing:
                 self.fail('C01', 'outstanding-recipient-not-attempted',
                           'attempt #%d of %s lacks outstanding %r (attempt recipients %r)'
                           % (m.nattempts, tag, missing, rcpts))
